@@ -17,12 +17,13 @@ AUDIT_SAMPLE = 2000
 
 
 def start_lemma_log(seed=0, cap=AUDIT_FULL_LIMIT):
-    see.LEMMAS.update(n=0, keep=[], cap=cap, rng=random.Random(seed))
+    see.LEMMAS.update(n=0, keep=[], cap=cap, rng=random.Random(seed), last=None, must=[])
 
 
 class Decider:
     def __init__(self, care_text=None, record=False, timeout_ms=None, cmd=('z3-new', '-in')):
         self.lemmas = list(see.LEMMAS['keep'])
+        self.must = list(see.LEMMAS['must'])
         self.n_lemmas = see.LEMMAS['n']
         see.LEMMAS.update(cap=0)
         self.nfun = len(see.TT['by']) if see.TT['on'] else 0
@@ -92,6 +93,8 @@ class Decider:
         full = self.n_lemmas == len(lem)
         if not full and len(lem) > AUDIT_SAMPLE:
             lem = lem[:AUDIT_SAMPLE]
+        if not full:
+            lem = self.must[:4000] + lem       # loop-terminating folds (unwinding assertions) are always included
         failed = 0
         t0 = time.time()
         for i in range(0, len(lem), batch):
@@ -107,7 +110,7 @@ class Decider:
                 r = self._q(['(or false %s)' % ' '.join(terms)])
                 if r != 'unsat':
                     failed += 1
-        return dict(total=self.n_lemmas, checked=len(lem), full=full, failed=failed, secs=round(time.time() - t0, 2))
+        return dict(total=self.n_lemmas, checked=len(lem), full=full, loop_exit_folds=len(self.must), failed=failed, secs=round(time.time() - t0, 2))
 
     def cross(self, timeout=600):
         return cross_check(self.smt, timeout)
